@@ -248,7 +248,9 @@ class StringifyMapper(Mapper):
     def map_power(self, expr, enclosing_prec, *args, **kwargs):
         return self.parenthesize_if_needed(
                 self.format("%s**%s",
-                    self.rec(expr.base, PREC_POWER, *args, **kwargs),
+                    # +1: '**' associates to the right, a power in the base
+                    # needs parentheses
+                    self.rec(expr.base, PREC_POWER+1, *args, **kwargs),
                     self.rec(expr.exponent, PREC_POWER, *args, **kwargs)),
                 enclosing_prec, PREC_POWER)
 
@@ -302,15 +304,19 @@ class StringifyMapper(Mapper):
     def map_comparison(self, expr, enclosing_prec, *args, **kwargs):
         return self.parenthesize_if_needed(
                 self.format("%s %s %s",
-                    self.rec(expr.left, PREC_COMPARISON, *args, **kwargs),
+                    # +1: comparisons do not chain, a comparison operand
+                    # needs parentheses
+                    self.rec(expr.left, PREC_COMPARISON+1, *args, **kwargs),
                     expr.operator,
-                    self.rec(expr.right, PREC_COMPARISON, *args, **kwargs)),
+                    self.rec(expr.right, PREC_COMPARISON+1, *args, **kwargs)),
                 enclosing_prec, PREC_COMPARISON)
 
     def map_logical_not(self, expr, enclosing_prec, *args, **kwargs):
+        # 'not' binds more loosely than comparisons and more tightly
+        # than 'and'.
         return self.parenthesize_if_needed(
-                "not " + self.rec(expr.child, PREC_UNARY, *args, **kwargs),
-                enclosing_prec, PREC_UNARY)
+                "not " + self.rec(expr.child, PREC_COMPARISON, *args, **kwargs),
+                enclosing_prec, PREC_LOGICAL_AND)
 
     def map_logical_or(self, expr, enclosing_prec, *args, **kwargs):
         return self.parenthesize_if_needed(
